@@ -1,7 +1,609 @@
-//! C11: correspondence + oracle runs (sub-commands `c11` / `c11-*`).
+//! C11: IPv4 reassembly.  Sub-commands
+//!   `c11`          datagrams through MTU chains, fragments shuffled/interleaved, expiry callbacks
+//!   `c11-dup`      the same with fragments delivered more than once
+//!   `c11-overlap`  a second copy of a datagram fragmented along a different chain is mixed in
+//!   `c11-raw`      arbitrary (malformed) fragments: correspondence of the panic sites only
+//!
+//! Op lines (the same lines drive the Lean model):
+//!   dgram <ihl> <tos> <tl> <ident> <fo> <flags> <ttl> <proto> <cksum> <src> <dst> <body>
+//!   pkt <ihl> <tos> <tl> <ident> <fo> <flags> <ttl> <proto> <cksum> <src> <dst> <body>
+//!   cull <src> <dst> <proto> <ident> <epoch> <token#>
+//! `dgram` only tells the oracle which original datagram travels under that identifier from now
+//! on (the model answers `ok`); `pkt` = receive_packet; `cull` = maybe_cull_segment.
+//! `token#` = ordinal (within the case) of the Incomplete result that issued the token.
+//!
+//! Oracle = the property, from the ORIGINAL datagrams: a datagram is returned exactly when the
+//! octets received for its identifier since the last completion / flush / expiry cover it, and
+//! then it is the original header and payload; an expiry callback frees the buffer iff its token
+//! is the one issued by the latest arrival for a buffer that is still pending.
+use super::c10::{compress, digest, gen_body, parse_body};
+use elvis_core::protocols::ipv4::fragmentation::{fragment, Fragments};
+use elvis_core::protocols::ipv4::ipv4_parsing::Ipv4Header;
+use elvis_core::protocols::ipv4::verif::{BufId, Epoch, ReceivePacketResult, Reassembly};
+use elvis_core::Message;
 use hcommon::*;
+use std::collections::HashMap;
+
+type Key = (u32, u32, u8, u16);
+
+fn mk_header(f: &[u64]) -> Ipv4Header {
+    Ipv4Header {
+        ihl: f[0] as u8,
+        type_of_service: (f[1] as u8).into(),
+        total_length: f[2] as u16,
+        identification: f[3] as u16,
+        fragment_offset: f[4] as u16,
+        flags: (f[5] as u8).into(),
+        time_to_live: f[6] as u8,
+        protocol: f[7] as u8,
+        checksum: f[8] as u16,
+        source: (f[9] as u32).into(),
+        destination: (f[10] as u32).into(),
+    }
+}
+
+fn show_hdr(h: &Ipv4Header) -> String {
+    format!(
+        "{},{},{},{},{},{},{},{},{},{},{}",
+        h.ihl,
+        h.type_of_service.as_u8(),
+        h.total_length,
+        h.identification,
+        h.fragment_offset,
+        h.flags.as_u8(),
+        h.time_to_live,
+        h.protocol,
+        h.checksum,
+        h.source.to_u32(),
+        h.destination.to_u32()
+    )
+}
+
+fn key_of(h: &Ipv4Header) -> Key {
+    (h.source.to_u32(), h.destination.to_u32(), h.protocol, h.identification)
+}
+
+fn classify(p: &PanicInfo) -> String {
+    let text = source_line_text(&p.file, p.line);
+    let t = text.as_str();
+    let file = p.file.rsplit('/').next().unwrap_or("");
+    let (sub, add, mul) = (p.msg.contains("subtract with overflow"), p.msg.contains("add with overflow"), p.msg.contains("multiply with overflow"));
+    if file == "segment.rs" {
+        if sub && t.contains("total_length") {
+            return "panic:sub-overflow:data_length".into();
+        } else if mul && t.contains("fragment_offset") {
+            return "panic:mul-overflow:tdl".into();
+        } else if add && t.contains("total_data_length + 7") {
+            return "panic:add-overflow:tdl_round".into();
+        } else if add && t.contains("fragment_offset *") {
+            return "panic:add-overflow:tdl".into();
+        } else if add && t.contains("fragment_offset +") {
+            return "panic:add-overflow:block_end".into();
+        } else if add && t.contains("total_data_length +") {
+            return "panic:add-overflow:total_length".into();
+        } else if add && t.contains("epoch") {
+            return "panic:add-overflow:epoch".into();
+        } else if t.contains("unwrap") {
+            return "panic:unwrap:header".into();
+        }
+    }
+    format!("panic:other:{}:{}", file, t.replace(' ', "_"))
+}
+
+/// one original datagram known to the oracle
+struct Dg {
+    header: Ipv4Header,
+    body: Vec<u8>,
+}
+
+#[derive(Default)]
+struct KeyState {
+    /// index of the datagram whose fragments are travelling under this identifier
+    dg: Option<usize>,
+    /// octet ranges received since the last completion / flush / expiry
+    covered: Vec<(usize, usize)>,
+    /// a buffer should be allocated
+    pending: bool,
+    /// ordinal of the token issued by the latest arrival into the pending buffer
+    latest: Option<usize>,
+    /// an arrival was repeated or overlapped since the last reset (for finding identities)
+    dup_seen: bool,
+}
+
+fn covers(cov: &[(usize, usize)], len: usize) -> bool {
+    let mut v = cov.to_vec();
+    v.sort();
+    let mut pos = 0;
+    for (a, b) in v {
+        if a > pos {
+            return false;
+        }
+        pos = pos.max(b);
+    }
+    pos >= len
+}
+
+pub struct Token {
+    key: Key,
+    epoch: Epoch,
+    fired: bool,
+}
+
+pub struct Exec {
+    r: Reassembly,
+    dgs: Vec<Dg>,
+    keys: HashMap<Key, KeyState>,
+    pub tokens: Vec<Token>,
+    oracle_on: bool,
+    pub completed_multi: u32,
+    pub dup_before_completion: u32,
+    pub culls_removed: u32,
+}
+
+impl Exec {
+    pub fn new(oracle_on: bool) -> Self {
+        Exec { r: Reassembly::new(), dgs: vec![], keys: HashMap::new(), tokens: vec![], oracle_on, completed_multi: 0, dup_before_completion: 0, culls_removed: 0 }
+    }
+
+    /// tell the oracle that `header/body` is an original datagram about to be fragmented
+    fn register(&mut self, header: Ipv4Header, body: Vec<u8>) -> usize {
+        let k = key_of(&header);
+        self.dgs.push(Dg { header, body });
+        let i = self.dgs.len() - 1;
+        let st = self.keys.entry(k).or_default();
+        st.dg = Some(i);
+        i
+    }
+
+    fn key_clean(&self, k: &Key) -> bool {
+        self.keys.get(k).map(|s| !s.pending).unwrap_or(true)
+    }
+
+    pub fn apply(&mut self, line: &str, out: &mut Out) {
+        let w: Vec<&str> = line.split_whitespace().collect();
+        match w.as_slice() {
+            ["dgram", f @ .., body] if f.len() == 11 => {
+                let n: Vec<u64> = f.iter().filter_map(|s| s.parse::<u64>().ok()).collect();
+                let (Some(b), 11) = (parse_body(body), n.len()) else { return out.line(line, "bad-op") };
+                self.register(mk_header(&n), b);
+                out.line(line, "ok");
+            }
+            ["pkt", f @ .., body] if f.len() == 11 => {
+                let n: Vec<u64> = f.iter().filter_map(|s| s.parse::<u64>().ok()).collect();
+                let (Some(b), 11) = (parse_body(body), n.len()) else { return out.line(line, "bad-op") };
+                let h = mk_header(&n);
+                let backup = self.r.clone();
+                let msg = Message::new(b.clone());
+                let r = &mut self.r;
+                let res = catch(|| r.receive_packet(h, msg));
+                let shown = match &res {
+                    Err(p) => {
+                        self.r = backup;
+                        let c = classify(p);
+                        out.count(&format!("result.{}", c));
+                        if self.oracle_on {
+                            out.fail(&format!("receive_packet panicked on a genuine fragment: {} ({})", c, p.msg), &format!("panic receive_packet {}", source_line_text(&p.file, p.line)));
+                        }
+                        format!("P:{}", c)
+                    }
+                    Ok(ReceivePacketResult::Complete(rh, rm)) => {
+                        out.count("result.complete");
+                        format!("C{{{}|{}}}", show_hdr(rh), digest(&rm.to_vec()))
+                    }
+                    Ok(ReceivePacketResult::Incomplete(d, id, e)) => {
+                        out.count("result.incomplete");
+                        let idtxt = if *id == BufId::from_header(&h) {
+                            let k = key_of(&h);
+                            format!("{},{},{},{}", k.0, k.1, k.2, k.3)
+                        } else {
+                            "foreign-bufid".to_string()
+                        };
+                        self.tokens.push(Token { key: key_of(&h), epoch: *e, fired: false });
+                        format!("I {} {} {}", d.as_secs(), idtxt, e)
+                    }
+                };
+                out.line(line, &compress(&format!("{} n={}", shown, self.r.verif_len())));
+                if self.oracle_on {
+                    if let Ok(v) = &res {
+                        self.oracle_pkt(&h, &b, v, out);
+                    }
+                }
+            }
+            ["cull", src, dst, proto, ident, epoch, tok] => {
+                let (Ok(s), Ok(d), Ok(p), Ok(i), Ok(e), Ok(t)) =
+                    (src.parse::<u32>(), dst.parse::<u32>(), proto.parse::<u8>(), ident.parse::<u16>(), epoch.parse::<Epoch>(), tok.parse::<usize>())
+                else {
+                    return out.line(line, "bad-op");
+                };
+                // a BufId can only be made from a header
+                let id = BufId::from_header(&mk_header(&[5, 0, 20, i as u64, 0, 0, 0, p as u64, 0, s as u64, d as u64]));
+                let before = self.r.verif_contains(&id);
+                self.r.maybe_cull_segment(id, e);
+                let after = self.r.verif_contains(&id);
+                out.count(if before && !after { "cull.removed" } else if before { "cull.kept" } else { "cull.absent" });
+                if before && !after {
+                    self.culls_removed += 1;
+                }
+                out.line(line, &format!("cull {} {} n={}", before as u8, after as u8, self.r.verif_len()));
+                if self.oracle_on {
+                    let k: Key = (s, d, p, i);
+                    let st = self.keys.entry(k).or_default();
+                    let should_remove = st.pending && st.latest == Some(t);
+                    if should_remove && after {
+                        out.fail(
+                            &format!("expiry with the token of the latest arrival ({}) did not free the buffer of {:?}", t, k),
+                            "cull kept the buffer although no fragment arrived since the token was issued",
+                        );
+                    } else if !should_remove && before && !after {
+                        out.fail(
+                            &format!("expiry with stale token #{} (epoch {}) freed the buffer of {:?} although its latest arrival issued token {:?}", t, e, k, st.latest),
+                            "stale expiry token freed a buffer that received fragments since",
+                        );
+                    } else if !should_remove && !before && st.pending {
+                        out.fail("a pending buffer is missing", "pending buffer missing");
+                    }
+                    if !after {
+                        st.pending = false;
+                        st.latest = None;
+                        st.covered.clear();
+                        st.dup_seen = false;
+                    }
+                }
+            }
+            _ => out.line(line, "bad-op"),
+        }
+    }
+
+    fn oracle_pkt(&mut self, h: &Ipv4Header, b: &[u8], res: &ReceivePacketResult, out: &mut Out) {
+        let k = key_of(h);
+        let tok = self.tokens.len();
+        let st = self.keys.entry(k).or_default();
+        let Some(di) = st.dg else { return };
+        let dg = &self.dgs[di];
+        let whole = h.fragment_offset == 0 && h.flags.is_last_fragment();
+        let start = h.fragment_offset as usize * 8;
+        let range = (start, start + b.len());
+        if !whole {
+            if st.covered.iter().any(|(a, e)| *a < range.1 && range.0 < *e) {
+                st.dup_seen = true;
+                if st.pending {
+                    self.dup_before_completion += 1;
+                }
+            }
+            st.covered.push(range);
+        }
+        let expect_complete = whole || covers(&st.covered, dg.body.len());
+        let dup = if st.dup_seen { "with repeated/overlapping fragments" } else { "no fragment repeated" };
+        match res {
+            ReceivePacketResult::Complete(rh, rm) => {
+                let rv = rm.to_vec();
+                let nfrag = st.covered.len();
+                if !expect_complete {
+                    out.fail(
+                        &format!("a datagram was returned although the octets received since the last completion do not cover it ({})", dup),
+                        &format!("returned before covered ({})", dup),
+                    );
+                } else {
+                    let (eh, eb): (&Ipv4Header, &[u8]) = if whole { (h, b) } else { (&dg.header, &dg.body) };
+                    if rv != eb || rm.len() != eb.len() {
+                        out.fail(
+                            &format!("returned payload ({} octets, {}) is not the original ({} octets, {}); {}", rv.len(), digest(&rv), eb.len(), digest(eb), dup),
+                            &format!("returned payload differs from the original ({})", dup),
+                        );
+                    } else if rh != eh {
+                        out.fail(&format!("returned header {} is not the original {}", show_hdr(rh), show_hdr(eh)), &format!("returned header differs from the original ({})", dup));
+                    } else if nfrag >= 2 {
+                        self.completed_multi += 1;
+                    }
+                }
+                st.covered.clear();
+                st.pending = false;
+                st.latest = None;
+                st.dup_seen = false;
+            }
+            ReceivePacketResult::Incomplete(_, id, _) => {
+                if expect_complete {
+                    out.fail(
+                        &format!("all octets of the datagram arrived since the last completion but nothing was returned ({})", dup),
+                        &format!("covered but not returned ({})", dup),
+                    );
+                }
+                if *id != BufId::from_header(h) {
+                    out.fail("Incomplete names a foreign BufId", "foreign bufid");
+                }
+                st.pending = true;
+                st.latest = Some(tok - 1); // the token pushed for this very result
+            }
+        }
+    }
+}
+
+// ------------------------------------------------------------------------------------------
+// generation
+// ------------------------------------------------------------------------------------------
+
+fn gen_mtu(rng: &mut Rng) -> u16 {
+    (match rng.below(10) {
+        0 => 68,
+        1 => *rng.pick(&[69u64, 70, 76, 576, 1500, 1280]),
+        2..=5 => rng.range(68, 400),
+        6..=8 => rng.range(68, 2000),
+        _ => rng.range(68, 65535),
+    }) as u16
+}
+
+struct Piece {
+    header: Ipv4Header,
+    /// body = gen_body(seed, len) (a slice of the datagram's generated body)
+    seed: u64,
+    len: usize,
+}
+
+/// fragments of (header, gen_body(seed,len)) along a chain of MTUs, by the real fragmenter
+fn fragments_of(header: Ipv4Header, seed: u64, len: usize, mtus: &[u16]) -> Vec<Piece> {
+    let mut cur = vec![(header, Message::new(gen_body(seed, len)))];
+    for m in mtus {
+        let mut next = vec![];
+        for (h, b) in cur {
+            match fragment(h, b, *m) {
+                Fragments::Fragmented(l) => next.extend(l),
+                Fragments::DontFragment(f) => next.push(f),
+                Fragments::Discard => {}
+            }
+        }
+        cur = next;
+    }
+    cur.into_iter()
+        .map(|(h, b)| Piece { header: h, seed: seed + (h.fragment_offset as u64 - header.fragment_offset as u64) * 8, len: b.len() })
+        .collect()
+}
+
+fn pkt_line(p: &Piece, rng: &mut Rng) -> String {
+    let body = if p.len <= 24 && rng.chance(1, 2) { format!("h:{}", hex(&gen_body(p.seed, p.len))) } else { format!("g:{}:{}", p.seed, p.len) };
+    format!("pkt {} {}", show_hdr(&p.header).replace(',', " "), body)
+}
+
+fn gen_len(rng: &mut Rng) -> usize {
+    (match rng.below(40) {
+        0..=1 => rng.range(1, 9),
+        2 => 65515,
+        3 => rng.range(60000, 65515),
+        4..=6 => rng.range(1, 20000),
+        7..=24 => rng.range(40, 1500),
+        _ => rng.range(1, 5000),
+    }) as usize
+}
+
+#[derive(Clone, Copy, PartialEq)]
+enum Stream {
+    Plain,
+    Dup,
+    Overlap,
+}
+
+/// one case: rounds of 1..5 datagrams in total; inside a round the identifiers are distinct and
+/// the fragments of all its datagrams are interleaved; a later round may reuse the identifier of
+/// a datagram that is no longer pending
+fn run_case(stream: Stream, rng: &mut Rng, out: &mut Out) -> Exec {
+    let mut ex = Exec::new(true);
+    let total = rng.range(1, 5) as usize;
+    let mut made = 0;
+    let mut used: Vec<Key> = vec![];
+    let small_space = rng.chance(1, 2); // few identifiers: reuse is likely
+    while made < total {
+        let in_round = rng.range(1, (total - made) as u64) as usize;
+        let mut arrivals: Vec<(usize, String)> = vec![]; // (datagram ordinal in round, op line)
+        let mut round_keys: Vec<Key> = vec![];
+        for d in 0..in_round {
+            // a fresh or recycled identifier
+            let mut key: Key;
+            let mut tries = 0;
+            loop {
+                key = if !used.is_empty() && rng.chance(1, 2) {
+                    *rng.pick(&used)
+                } else if small_space {
+                    (0x0a000001 + rng.below(2) as u32, 0x0a000002 + 256 * rng.below(2) as u32, *rng.pick(&[6u8, 17]), rng.below(2) as u16)
+                } else {
+                    (rng.below(1 << 32) as u32, rng.below(1 << 32) as u32, rng.below(256) as u8, rng.below(65536) as u16)
+                };
+                tries += 1;
+                if (ex.key_clean(&key) && !round_keys.contains(&key)) || tries > 20 {
+                    break;
+                }
+            }
+            if !(ex.key_clean(&key) && !round_keys.contains(&key)) {
+                key = (rng.below(1 << 32) as u32, rng.below(1 << 32) as u32, 200, 40000 + made as u16 * 7 + d as u16);
+            }
+            round_keys.push(key);
+            if !used.contains(&key) {
+                used.push(key);
+            }
+            let len = gen_len(rng);
+            let seed = rng.below(1 << 32);
+            let header = mk_header(&[5, rng.below(64) * 4, 20 + len as u64, key.3 as u64, 0, 0, rng.below(256), key.2 as u64, rng.below(65536), key.0 as u64, key.1 as u64]);
+            ex.apply(&format!("dgram {} g:{}:{}", show_hdr(&header).replace(',', " "), seed, len), out);
+            let hops = rng.range(1, 3) as usize;
+            let mut mtus: Vec<u16> = (0..hops).map(|_| gen_mtu(rng)).collect();
+            if len > 8000 && rng.chance(4, 5) {
+                // keep the number of fragments of the big datagrams moderate most of the time
+                mtus = mtus.into_iter().map(|m| m.max(1000)).collect();
+            }
+            mtus.sort_by(|a, b| b.cmp(a));
+            let mut pieces = fragments_of(header, seed, len, &mtus);
+            out.count(&format!("fragments.{}", match pieces.len() { 1 => "1", 2 => "2", 3..=9 => "3-9", 10..=99 => "10-99", _ => ">=100" }));
+            // arrival order
+            match rng.below(4) {
+                0 => {}
+                1 => pieces.reverse(),
+                _ => shuffle(&mut pieces, rng),
+            }
+            let mut lines: Vec<String> = pieces.iter().map(|p| pkt_line(p, rng)).collect();
+            if stream == Stream::Dup && !lines.is_empty() {
+                let copies = rng.range(1, 3.min(lines.len() as u64));
+                for _ in 0..copies {
+                    let c = lines[rng.below(lines.len() as u64) as usize].clone();
+                    let at = rng.below(lines.len() as u64 + 1) as usize;
+                    lines.insert(at, c);
+                }
+            }
+            if stream == Stream::Overlap {
+                let mut mt2: Vec<u16> = (0..rng.range(1, 2)).map(|_| gen_mtu(rng)).collect();
+                mt2.sort_by(|a, b| b.cmp(a));
+                let other = fragments_of(header, seed, len, &mt2);
+                if other.len() >= 2 {
+                    let take = rng.range(1, other.len() as u64) as usize;
+                    for _ in 0..take {
+                        let p = &other[rng.below(other.len() as u64) as usize];
+                        let at = rng.below(lines.len() as u64 + 1) as usize;
+                        lines.insert(at, pkt_line(p, rng));
+                    }
+                }
+            }
+            for l in lines {
+                arrivals.push((d, l));
+            }
+        }
+        made += in_round;
+        // interleave the datagrams of the round, keeping each datagram's own order
+        let order = interleave(&arrivals, in_round, rng);
+        let den = (order.len() as u64).max(6) * if rng.chance(1, 3) { 4 } else { 1 };
+        for l in order {
+            maybe_fire(&mut ex, rng, out, den);
+            ex.apply(&l, out);
+        }
+        maybe_fire(&mut ex, rng, out, 3);
+    }
+    // finally a sample of the outstanding timers fires (oldest first, as the real timers would)
+    let open: Vec<usize> = (0..ex.tokens.len()).filter(|t| !ex.tokens[*t].fired).collect();
+    let step = (open.len() / 6).max(1);
+    for t in open.into_iter().step_by(step) {
+        if rng.chance(2, 3) {
+            fire(&mut ex, t, out);
+        }
+    }
+    ex
+}
+
+fn shuffle<T>(v: &mut [T], rng: &mut Rng) {
+    for i in (1..v.len()).rev() {
+        let j = rng.below(i as u64 + 1) as usize;
+        v.swap(i, j);
+    }
+}
+
+fn interleave(arr: &[(usize, String)], n: usize, rng: &mut Rng) -> Vec<String> {
+    let mut queues: Vec<std::collections::VecDeque<String>> = vec![Default::default(); n];
+    for (d, l) in arr {
+        queues[*d].push_back(l.clone());
+    }
+    let sequential = rng.chance(1, 4);
+    let mut res = vec![];
+    loop {
+        let live: Vec<usize> = (0..n).filter(|i| !queues[*i].is_empty()).collect();
+        if live.is_empty() {
+            break;
+        }
+        let q = if sequential { live[0] } else { *rng.pick(&live) };
+        res.push(queues[q].pop_front().unwrap());
+    }
+    res
+}
+
+fn fire(ex: &mut Exec, t: usize, out: &mut Out) {
+    let (k, e) = (ex.tokens[t].key, ex.tokens[t].epoch);
+    ex.tokens[t].fired = true;
+    let line = format!("cull {} {} {} {} {} {}", k.0, k.1, k.2, k.3, e, t);
+    ex.apply(&line, out);
+}
+
+/// with probability 1/den fire one outstanding timer: half of the time the newest token of some
+/// identifier, otherwise any older one
+fn maybe_fire(ex: &mut Exec, rng: &mut Rng, out: &mut Out, den: u64) {
+    if !rng.chance(1, den) {
+        return;
+    }
+    let open: Vec<usize> = (0..ex.tokens.len()).filter(|t| !ex.tokens[*t].fired).collect();
+    if open.is_empty() {
+        return;
+    }
+    let t = if rng.chance(1, 2) { *open.last().unwrap() } else { *rng.pick(&open) };
+    fire(ex, t, out);
+}
+
+/// arbitrary fragments (possibly malformed): only model/implementation correspondence
+fn run_raw(rng: &mut Rng, out: &mut Out) {
+    let mut ex = Exec::new(false);
+    let n = rng.range(3, 14);
+    for _ in 0..n {
+        if !ex.tokens.is_empty() && rng.chance(1, 6) {
+            let t = rng.below(ex.tokens.len() as u64) as usize;
+            fire(&mut ex, t, out);
+            continue;
+        }
+        let blen = *rng.pick(&[0usize, 1, 7, 8, 9, 16, 24, 40]);
+        let ihl = if rng.chance(5, 6) { 5 } else { *rng.pick(&[0u64, 4, 6, 15]) };
+        let tl = match rng.below(6) {
+            0 => rng.below(24),
+            1 => 65535 - rng.below(30),
+            2 => rng.below(65536),
+            _ => 20 + blen as u64,
+        };
+        let fo = match rng.below(8) {
+            0 => 8191,
+            1 => 8188 + rng.below(4),
+            2 => 65535 - rng.below(9000),
+            3 => rng.below(65536),
+            _ => rng.below(6),
+        };
+        let flags = rng.below(4);
+        let line = format!(
+            "pkt {} {} {} {} {} {} {} {} {} {} {} h:{}",
+            ihl, rng.below(256), tl, rng.below(2), fo, flags, rng.below(256), 17, rng.below(65536), 1, 2, hex(&rng.bytes(blen))
+        );
+        ex.apply(&line, out);
+    }
+}
 
 pub fn run(args: &Args) {
-    eprintln!("hcore: {} not implemented yet", args.prop);
-    std::process::exit(2);
+    let mut out = Out::new(&args.out);
+    let stream = match args.prop.as_str() {
+        "c11-dup" => Stream::Dup,
+        "c11-overlap" => Stream::Overlap,
+        _ => Stream::Plain,
+    };
+    let rule = "1..5 datagrams (payload 1..65515) per case in rounds, each through a chain of 1..3 MTUs by the real fragmenter; fragments in order / reversed / shuffled, datagrams of a round interleaved, identifiers recycled once clean; expiry callbacks with current and stale tokens at random points; c11-dup repeats 1..3 fragments, c11-overlap mixes in fragments of the same datagram from a second chain; every ReceivePacketResult (header, payload digest, timeout, BufId, epoch), buffer presence around every cull and the buffer count are compared; a case is non-trivial if a datagram of >= 2 fragments was returned (dup/overlap: and a repeated/overlapping fragment arrived while pending); distinct = hash of its op lines";
+    if let Some(rp) = &args.replay {
+        let mut ex = Exec::new(true);
+        out.begin_case(0);
+        out.mark_nontrivial();
+        let ops: Vec<String> = read_ops(rp).into_iter().filter(|l| !l.starts_with("case ")).collect();
+        for l in &ops {
+            ex.apply(l, &mut out);
+        }
+        out.end_case();
+        out.finish(rule);
+        return;
+    }
+    let mut rng = Rng::new(args.seed);
+    for c in 0..args.cases {
+        let mut r = rng.fork();
+        out.begin_case(c);
+        if args.prop == "c11-raw" {
+            run_raw(&mut r, &mut out);
+            out.mark_nontrivial();
+        } else {
+            let ex = run_case(stream, &mut r, &mut out);
+            let ok = ex.completed_multi >= 1 && (stream == Stream::Plain || ex.dup_before_completion >= 1);
+            if ok {
+                out.mark_nontrivial();
+            }
+            out.count(&format!("completed_from_fragments.{}", ex.completed_multi.min(5)));
+            if ex.culls_removed > 0 {
+                out.count("cases_with_effective_cull");
+            }
+        }
+        out.end_case();
+    }
+    out.finish(rule);
 }
+
